@@ -627,6 +627,7 @@ func (x *ExtendedReport) Unmarshal(b []byte) error {
 
 	buffer := packetBuffer{bytes: b[headerLength:]}
 	err := buffer.read(&x.SenderSSRC)
+	x.Reports = nil
 	if err != nil {
 		return err
 	}
